@@ -319,6 +319,14 @@ def judge_exits(acc, tap, H, results, kinds_inside, trace, ident, outcome, rec, 
                 dict(ident, trace=trace[-16:], exit_exception=hist.describe_exc(exit_exc), outcome=outcome),
             )
             break
+        used = _removed_variable_lost_its_column(diffs, kinds_inside, ident) if diffs else None
+        if used:
+            acc.violation(
+                "C03/not-restored/removed-variable-comes-back-without-its-coefficients",
+                f"a variable removed with remove_cons_vars inside the block is re-added on exit as an empty column: {diffs[0]}",
+                dict(ident, trace=trace[-16:], diffs=diffs[:10], exit_depth=depth, outcome=outcome),
+            )
+            break
         how = _only_outside_refs_changed(diffs) if diffs else None
         if how:
             # the two recorded mechanisms, each proved by what the block contains and by
@@ -365,6 +373,22 @@ def judge_exits(acc, tap, H, results, kinds_inside, trace, ident, outcome, rec, 
                 dict(ident, trace=trace[-16:], diffs=diffs[:10], exit_depth=depth, outcome=outcome, start_recipe=rec if len(str(rec)) < 5000 else "large"),
             )
             break
+
+
+def _removed_variable_lost_its_column(diffs, kinds_inside, ident):
+    """Proves the recorded mechanism: the block removed, through remove_cons_vars, variables that the
+    remaining constraints/objective still used (ident['removed_used_variables'] names them), and every
+    difference is a coefficient on exactly one of those columns that went to zero."""
+    import re
+
+    names = set(ident.get("removed_used_variables") or ())
+    if not names or "model.remove_cons_vars(used-variable)" not in kinds_inside:
+        return False
+    for d in diffs:
+        m = re.match(r"^LP (?:row \S+|objective): coef on (\S+) (\S+) -> (\S+)$", d)
+        if not m or m.group(1) not in names or float(m.group(3)) != 0.0:
+            return False
+    return True
 
 
 def _only_outside_refs_changed(diffs):
@@ -462,6 +486,9 @@ def run_probe(pr, acc):
         r = model.reactions.R
         model.remove_reactions([r])
         rename_genes(model, {"g1": "gn1"})
+    ident = {"probe": name}
+    if name == "removed-variable-still-used":
+        ident["removed_used_variables"] = [model.reactions.R.forward_variable.name]
     H = ops.Hist(model, gen.rng_for("C03probe", name))
     model._cv_armed = True
     tap.results.clear()
@@ -475,6 +502,10 @@ def run_probe(pr, acc):
             elif name == "outside-reference-dropped":
                 rename_genes(model, {"g2": "gn2"})
                 kinds.append("manipulation.rename_genes")
+            elif name == "removed-variable-still-used":
+                # what tests/test_util/test_solver.py::test_add_remove_in_context does with v.PGM
+                model.remove_cons_vars([model.reactions.R.forward_variable])
+                kinds.append("model.remove_cons_vars(used-variable)")
             else:
                 model.add_reactions([r])
                 kinds.append("model.add_reactions")
@@ -485,7 +516,7 @@ def run_probe(pr, acc):
     for _ in results:
         acc.ev()
     acc.count("probes_run")
-    judge_exits(acc, tap, H, results, kinds, trace, {"probe": name}, outcome, None, 1, None)
+    judge_exits(acc, tap, H, results, kinds, trace, ident, outcome, None, 1, None)
     model._cv_armed = False
 
 
